@@ -106,6 +106,18 @@ Theorem C01_code_after_insertion :
   forall (body : list stmt) (i : nat), nth_error body i = Some SOther -> (insert_index body <= i)%nat.
 Proof. exact code_after_insertion. Qed.
 
+(* whether the line is needed: only a top-level `from inline_snapshot import <name>` counts (an import nested in a test function, a class, an
+   `if` or `try` block does not bind the name for the rest of the module); afterwards the module has a top-level import of the name *)
+Theorem C01_ensure_name_binds :
+  forall body : list estmt, contains_import (ensure_name body) = true.
+Proof. exact ensure_name_binds. Qed.
+Theorem C01_ensure_name_noop_iff :
+  forall body : list estmt, ensure_name body = body <-> contains_import body = true.
+Proof. exact ensure_name_noop_iff. Qed.
+Theorem C01_ensure_name_position :
+  forall body : list estmt, contains_import body = false -> map fst (ensure_name body) = ensure_import (map fst body).
+Proof. exact ensure_name_position. Qed.
+
 Print Assumptions C01_create_satisfies_op_flat.
 Print Assumptions C01_create_satisfies_getitem.
 Print Assumptions C01_created_snapshot_second_run_passes.
@@ -117,3 +129,6 @@ Print Assumptions C01_src_val_canon.
 Print Assumptions C01_repr_parse_roundtrip_fuel.
 Print Assumptions C01_parse_repr_roundtrip.
 Print Assumptions C01_code_after_insertion.
+Print Assumptions C01_ensure_name_binds.
+Print Assumptions C01_ensure_name_noop_iff.
+Print Assumptions C01_ensure_name_position.
